@@ -682,6 +682,8 @@ var c15Snippets = []string{
 	"", " ", " plain words", " x = \"a\" + 'b';", " if (a) { b(); } else { c; }", " // nested // slashes", "// no space", "/", " */ /* block */",
 	" %d %s %v %", " 100%", " %!d(MISSING) %%", " back\\slash \\n \\", " `tick` ${x}", " \"unclosed", " 'q", " }", " { ( [", " ) ] }", " let x = 1; // t",
 	" return", " function f() {", " é 日本 ü", "\tтаб\t", " a\tb", " <!-- -->", " ;;;", " @#$^&*~|?:.,<>", " 0x1F 1e9 .5", " TODO(me): fix", " https://example.org/a?b=c&d=%20",
+	// last bytes that a byte-wise trim could take for white space (…A0, …85), and characters that share a prefix with U+2028 / U+2029
+	" déjà", " Š", " Ơ", " \U0001F620", " x\u00a0", " caf\u00e9 \u2013 x = 0", " \u2026", " it\u2019s", " \u0085", " a\u2003b",
 }
 
 func c15CommentText(r *rand.Rand, id int) string {
